@@ -212,6 +212,7 @@ def check_find_range(fx, rep, rule):
     cl = find_closure(res)
     ok_pred = False
     pred = None
+    positive = False
     if len(cl) == 1:
         pred = list(cl)[0]
         try:
@@ -220,17 +221,33 @@ def check_find_range(fx, rep, rule):
             want = ("not", ("eq", ("apply", f, (("bound", 0),)), ("adt", "Ordering", "Equal", ())))
             alt = ("not", ("eq", call("std::ops::Fn::call", f, ("tuple", (("bound", 0),))), ("adt", "Ordering", "Equal", ())))
             ok_pred = t in (want, alt)
+            if not ok_pred and t in (want[1], alt[1]):
+                # the positive predicate |m| f(m) == Equal, used with take_while(..).count() (second accepted form)
+                ok_pred = positive = True
             pred_desc = S.tstr(t)
         except S.Undecidable as e:
             pred_desc = e.msg
     else:
         pred_desc = "%d closures" % len(cl)
     rep.check(rule, "%s/find_range/boundary-predicate" % rule, ok_pred, loc=F.short_file(b["sp"]), found="matches_not = |m| %s" % pred_desc,
-              expected="|m| f(m) != Equal")
+              expected="|m| f(m) != Equal (with rposition/position) or |m| f(m) == Equal (with take_while(..).count())")
+    before_ = call("std::ops::Index::index", ms, ("adt", "RangeTo", "RangeTo", (("end", mid),)))
+    from_ = call("std::ops::Index::index", ms, ("adt", "RangeFrom", "RangeFrom", (("start", mid),)))
+
+    def rw_split(t):
+        # `let (before, from_mid) = members.split_at(mid)` names the same two sub-slices as members[..mid] / members[mid..]
+        if t[0] == "field" and t[1][0] == "call" and t[1][1] == "core::slice::split_at" and t[1][2] == (ms, mid):
+            return before_ if t[2] == "0" else (from_ if t[2] == "1" else None)
+        return None
 
     def ref(o):
         if not o(("is", mid_t, "Ok")):
             return NONE
+        if positive:
+            # start = mid - (number of matches directly before mid); end = mid + (number of matches from mid on)
+            nb = call("std::iter::Iterator::count", call("std::iter::Iterator::take_while", call("std::iter::Iterator::rev", call("core::slice::iter", before_)), pred))
+            nf = call("std::iter::Iterator::count", call("std::iter::Iterator::take_while", call("core::slice::iter", from_), pred))
+            return call("core::slice::get", ms, ("adt", "Range", "Range", (("start", S.lin_norm([(mid, 1), (nb, -1)])), ("end", S.lin_norm([(mid, 1), (nf, 1)])))))
         left = call("std::iter::Iterator::rposition", call("core::slice::iter", call("std::ops::Index::index", ms, ("adt", "RangeTo", "RangeTo", (("end", mid),)))), pred)
         right = call("std::iter::Iterator::position", call("core::slice::iter", call("std::ops::Index::index", ms, ("adt", "RangeFrom", "RangeFrom", (("start", mid),)))), pred)
         start = S.lin_norm([(mk_payload(left, "Some", "0"), 1)], 1) if o(("is", left, "Some")) else lit_int(0)
@@ -240,7 +257,7 @@ def check_find_range(fx, rep, rule):
     def rwpos(t):
         # rposition/position take &mut self on a temporary: sym renders them as pure calls already
         return None
-    bad, n = fc.compare_paths(res, ref, lambda st, out: out[1])
+    bad, n = fc.compare_paths(res, ref, lambda st, out: fc.rewrite(out[1], rw_split), rw=rw_split)
     report_cmp(rep, rule, "%s/find_range/equal-range" % rule, b, res, bad,
                "mid = binary_search_by(f).ok()?; start = last non-match before mid + 1 (else 0); end = first non-match from mid (else len); get(start..end)")
 
